@@ -10,15 +10,19 @@ cleanup() { git -C /repo worktree remove --force "$WT" >/dev/null 2>&1; rm -rf "
 trap cleanup EXIT
 cd "$WT"; mkdir -p target
 git apply "$D/patch.diff" || { echo "RESULT patch-does-not-apply"; exit 1; }
+# a seed may need a cargo feature for its demo (meta.json: "features": "async-vfs"); the pinned suite is always run as pinned
+FEAT=$(python3 -c "import json,sys; print(json.load(open(sys.argv[1])).get('features',''))" "$D/meta.json" 2>/dev/null)
+FARG=""; [ -n "$FEAT" ] && FARG="--features $FEAT"
 suite=$(cargo test --workspace --no-fail-fast --offline 2>&1 | grep -E "^test result" | tr '\n' ' ')
 mkdir -p tests && cp "$D/seed_demo.rs" tests/seed_demo.rs
-with=$(cargo test --offline --test seed_demo 2>&1 | grep -E "^test result" | tr '\n' ' ')
+with=$(cargo test --offline $FARG --test seed_demo 2>&1 | grep -E "^test result" | tr '\n' ' ')
 git checkout -q -- . 
-without=$(cargo test --offline --test seed_demo 2>&1 | grep -E "^test result" | tr '\n' ' ')
+without=$(cargo test --offline $FARG --test seed_demo 2>&1 | grep -E "^test result" | tr '\n' ' ')
+if [ -n "$FEAT" ]; then git apply "$D/patch.diff"; fsuite=$(cargo test --offline $FARG --lib 2>&1 | grep -E "^test result" | tr '\n' ' '); git checkout -q -- .; echo "SUITE(with patch, $FARG --lib): $fsuite"; echo "$fsuite" | grep -q " 0 failed" || ok_feat=0; fi
 echo "SUITE(with patch): $suite"
 echo "DEMO(with patch): $with"
 echo "DEMO(without patch): $without"
-ok=1
+ok=${ok_feat:-1}
 echo "$suite" | grep -q "397 passed; 0 failed" || ok=0
 echo "$suite" | grep -q "32 passed; 0 failed" || ok=0
 echo "$with" | grep -q "FAILED" || ok=0
